@@ -53,7 +53,15 @@ def func_impl(kind):
     return lambda b: b
 
 
-ATTR_CHOICES = [{}, {"max_recursion_depth": 6}, {"max_int_index": 50, "min_int_index": -50}, {"max_recursion_depth": 3, "max_int_index": 5, "min_int_index": -5}]
+ATTR_CHOICES = [{}, {"max_recursion_depth": 6}, {"max_int_index": 50, "min_int_index": -50}, {"max_recursion_depth": 3, "max_int_index": 5, "min_int_index": -5},
+                {"max_recursion_depth": 5000}, {"max_int_index": 2**62, "min_int_index": -(2**62)}]
+
+
+def interpreter_settings():
+    """Interpreter-wide settings that everything else in the process depends on."""
+    import locale
+    return {"recursionlimit": sys.getrecursionlimit(), "switchinterval": sys.getswitchinterval(), "int_max_str_digits": sys.get_int_max_str_digits(),
+            "locale": locale.setlocale(locale.LC_ALL), "default_encoding": sys.getdefaultencoding()}
 
 
 def build_env(cfg):
@@ -237,6 +245,7 @@ class History:
         self.violations = []
         self.fresh = 0
         self.live = []
+        self.applied = []
         self.pinned = set()
         self.flags = {"envs": 0, "reuse": 0}
 
@@ -365,6 +374,9 @@ class History:
                 return
             m = R.choice(["find", "finditer", "apply"])
             self.observe("compiled." + m, i, text, lambda: getattr(q, m)(doc), doc, compiled_reuse=True)
+            self.applied.append((q, text, i, doc))
+            if len(self.applied) > 40:
+                self.applied.pop(0)
             return
         if r < 0.74:
             i = R.randrange(len(self.envs))
@@ -386,13 +398,19 @@ class History:
                 d = gen_doc(R)
                 self.docs.append(tripwired(d) if R.random() < 0.6 else d)
             return
-        if r < 0.92:
+        if r < 0.89:
             d = R.choice(self.docs)
             self.docs.append(D.deep_copy(plain(d)) if R.random() < 0.5 else tripwired(plain(d)))
             return
         cand = [d for d in self.docs if id(d) not in self.pinned]
         if cand:
-            mutate_in_place(R, R.choice(cand))
+            d = R.choice(cand)
+            mutate_in_place(R, d)
+            # re-apply right away a compiled query that has already seen this very document object
+            seen = [(q, text, i) for (q, text, i, dd) in self.applied if dd is d]
+            if seen:
+                q, text, i = R.choice(seen)
+                self.observe("compiled.find(after in-place update)", i, text, lambda: q.find(d), d, compiled_reuse=True)
 
     def check_others(self, changed_i, text, before=None):
         jp = self.jp
@@ -449,11 +467,17 @@ def run_shard(spec, rec):
         hist = History(R, jp, rec)
         steps = R.randint(12, 50)
         rec.wal({"history": h, "steps": steps})
+        settings = interpreter_settings()
         try:
             with guard(120):
                 for _ in range(steps):
                     hist.step()
                 hist.finish()
+            now = interpreter_settings()
+            if now != settings:
+                hist.violations.append(("interpreter-wide-setting-changed", {"before": settings, "after": now,
+                                                                             "environments_created": [c for _, c in hist.envs]}))
+                sys.setrecursionlimit(settings["recursionlimit"])
         except CaseTimeout:
             rec.timeout("history %d" % h)
             continue
